@@ -715,11 +715,11 @@ def wiring(ctx: Ctx):
     }
     for name, lab in exp.items():
         labels = data_labels(measure_blocks_reads(ctx, som, name))
-        ctx.ob("wiring", f"matrix/measure.py::SecondOrderMeasures.{name}", sorted(labels), sorted(lab), labels == lab, "public measure derives from exactly this response measure")
+        ctx.ob("wiring", f"matrix/measure.py::SecondOrderMeasures.{name}", sorted(labels), sorted(lab), (labels == lab) if labels else None, "public measure derives from exactly this response measure")
     sm = strand_measures_obj(ctx)
     for name, lab in exp.items():
         labels = data_labels(measure_blocks_reads(ctx, sm, name))
-        ctx.ob("wiring", f"stripe/measure.py::StripeMeasures.{name}", sorted(labels), sorted(lab), labels == lab)
+        ctx.ob("wiring", f"stripe/measure.py::StripeMeasures.{name}", sorted(labels), sorted(lab), (labels == lab) if labels else None)
     sl = ctx.repo.cls("cubepart.py", "_Slice")
     pub = {
         "counts": "weighted_counts", "unweighted_counts": "unweighted_counts", "means": "means",
